@@ -19,7 +19,7 @@ theorem stepByte_cooked (count : Bool) (s : St) (p : Bytes) (c : UInt8) :
   rcases hs : s.ctrl with _ | ⟨a, _ | ⟨b, _ | ⟨d, l⟩⟩⟩ <;> simp
   · split <;> simp
   · split <;> simp [hs]
-  · cases reply b c <;> cases count <;> simp
+  · cases reply count b c <;> cases count <;> simp
   · exact hs.symm
 
 theorem feed_cooked (count : Bool) (bs : Bytes) : ∀ (s : St) (p : Bytes),
@@ -118,11 +118,19 @@ def nCmds : List Item → Nat
   | .data _ :: r => nCmds r
   | .cmd _ _ :: r => nCmds r + 1
 
-theorem reply_eq_spec (v o : UInt8) (hv : isVerb v = true) : reply v o = some (specReply v o) := by
+/-- the reply chain read from the source of EITHER transport answers every verb as the property's
+    table says, for every option byte -/
+theorem reply_eq_spec (count : Bool) (v o : UInt8) (hv : isVerb v = true) :
+    reply count v o = some (specReply v o) := by
   unfold isVerb at hv
   simp only [Bool.or_eq_true, beq_iff_eq] at hv
-  unfold reply specReply
-  rcases hv with ((rfl | rfl) | rfl) | rfl <;> simp [DO, DONT, WILL, WONT] <;> split <;> simp_all
+  by_cases ho : o = SUPPRESS_GO_AHEAD
+  · subst ho
+    rcases hv with ((rfl | rfl) | rfl) | rfl <;> cases count <;> decide
+  · have ho' : (SUPPRESS_GO_AHEAD == o) = false := by
+      rw [beq_eq_false_iff_ne]; exact fun e => ho e.symm
+    rcases hv with ((rfl | rfl) | rfl) | rfl <;> cases count <;>
+      simp [reply, replyOf, syncReplyTable, asyncReplyTable, specReply, List.find?, ho', ho, DO, DONT, WILL, WONT]
 
 /-- the byte machine decodes a rendered item list exactly -/
 theorem feed_render (count : Bool) (items : List Item) : ∀ (s : St), s.ctrl = [] →
@@ -153,7 +161,7 @@ theorem feed_render (count : Bool) (items : List Item) : ∀ (s : St), s.ctrl = 
       have h3 : stepByte count { s with ctrl := [IAC, v] } o =
           { s with ctrl := [], writes := s.writes ++ [specReply v o],
                    counter := s.counter + (if count then 1 else 0) } := by
-        unfold stepByte; simp [reply_eq_spec v o hv]; cases count <;> simp
+        unfold stepByte; simp [reply_eq_spec count v o hv]; cases count <;> simp
       simp only [render, feed_cons, h1, h2, h3]
       rw [ih _ rfl hr]
       cases count <;> simp [dataBytes, specReplies, nCmds]
@@ -168,7 +176,7 @@ theorem stepByte_counter_mono (count : Bool) (s : St) (c : UInt8) :
   rcases hs : s.ctrl with _ | ⟨a, _ | ⟨b, _ | ⟨d, l⟩⟩⟩ <;> simp
   · split <;> simp
   · split <;> simp
-  · cases reply b c <;> cases count <;> simp
+  · cases reply count b c <;> cases count <;> simp
 
 theorem feed_counter_mono (count : Bool) (bs : Bytes) : ∀ s : St, s.counter ≤ (feed count s bs).counter := by
   induction bs with
@@ -204,7 +212,7 @@ theorem feed_quiet (bs : Bytes) : ∀ s : St, (feed true s bs).ctrl = [] →
       split at hc' <;> simp [hs] at hc'
     · rw [hs] at hc' hceq
       simp only at hceq
-      cases hr : reply d b <;> simp [hr] at hceq
+      cases hr : reply true d b <;> simp [hr] at hceq
     · rw [hs] at hc'
       simp [hs] at hc'
 
@@ -219,7 +227,7 @@ theorem stepByte_eof (count : Bool) (s : St) (e : Bool) (c : UInt8) :
   rcases hs : s.ctrl with _ | ⟨a, _ | ⟨b, _ | ⟨d, l⟩⟩⟩ <;> simp
   · split <;> simp
   · split <;> simp [hs]
-  · cases reply b c <;> cases count <;> simp
+  · cases reply count b c <;> cases count <;> simp
   · exact hs.symm
 
 theorem feed_eof (count : Bool) (bs : Bytes) : ∀ (s : St) (e : Bool),
@@ -312,6 +320,81 @@ theorem feed_false_counter (bs : Bytes) : ∀ s : St, (feed false s bs).counter 
     rcases hs : s.ctrl with _ | ⟨a, _ | ⟨d, _ | ⟨e, l⟩⟩⟩ <;> simp
     · split <;> simp
     · split <;> simp
-    · cases reply d b <;> simp
+    · cases reply false d b <;> simp
+
+end Scrapli.Telnet
+
+namespace Scrapli.Telnet
+open Scrapli Scrapli.Gen.Telnet
+
+/-! ### `read()` by `read()`: the fold `run` is what a client that keeps reading sees -/
+
+theorem stepByte_keeps_eof (count : Bool) (s : St) (c : UInt8) : (stepByte count s c).eof = s.eof := by
+  unfold stepByte
+  rcases hs : s.ctrl with _ | ⟨a, _ | ⟨d, _ | ⟨e, l⟩⟩⟩ <;> simp
+  · split <;> rfl
+  · split <;> rfl
+  · cases reply count d c <;> cases count <;> rfl
+
+theorem foldl_stepByte_keeps_eof (count : Bool) : ∀ (bs : Bytes) (s : St),
+    (bs.foldl (stepByte count) s).eof = s.eof := by
+  intro bs
+  induction bs with
+  | nil => intro s; rfl
+  | cons b bs ih => intro s; rw [List.foldl_cons, ih, stepByte_keeps_eof]
+
+theorem recvStep_eof (count : Bool) (limit : Nat) (s : St) (c : Bytes) :
+    (recvStep count limit s c).eof = c.isEmpty := by
+  unfold recvStep handle
+  simp only
+  split
+  · split
+    · rw [foldl_stepByte_keeps_eof]
+    · rw [foldl_stepByte_keeps_eof]
+  · rfl
+
+theorem clear_cooked_of_empty (s : St) (h : s.cooked = []) : { s with cooked := [] } = s := by
+  cases s; simp_all
+
+/-- **the fold is the read loop**: on a tape whose only empty recv result (EOF) is the last one, the
+    concatenation of the successive `read()` results is what `pump` accumulates -/
+theorem reads_flatten (count : Bool) (limit : Nat) : ∀ (tape : List Bytes) (s : St) (acc : Bytes),
+    (∀ c ∈ tape.dropLast, c ≠ []) →
+    (tape.foldl (pump count limit) (s, acc)).2 = acc ++ (reads count limit s tape).flatten := by
+  intro tape
+  induction tape with
+  | nil => intro s acc _; simp [reads]
+  | cons c cs ih =>
+    intro s acc hne
+    have hcs : ∀ x ∈ cs.dropLast, x ≠ [] := by
+      intro x hx
+      cases cs with
+      | nil => simp at hx
+      | cons d ds => exact hne x (by simp [List.dropLast_cons_cons, hx])
+    rw [List.foldl_cons]
+    unfold reads
+    simp only [pump]
+    by_cases hloop : ((recvStep count limit s c).cooked.isEmpty && !(recvStep count limit s c).eof) = true
+    · simp only [hloop, ↓reduceIte]
+      have hck : (recvStep count limit s c).cooked = [] := by
+        simp only [Bool.and_eq_true, List.isEmpty_iff] at hloop; exact hloop.1
+      rw [clear_cooked_of_empty _ hck, hck]
+      simpa [stripNul] using ih (recvStep count limit s c) acc hcs
+    · have hl : ((recvStep count limit s c).cooked.isEmpty && !(recvStep count limit s c).eof) = false := by
+        simpa using hloop
+      simp only [hl, Bool.false_eq_true, ↓reduceIte]
+      by_cases heof : (recvStep count limit s c).eof = true
+      · -- EOF was read: `c` is empty, hence the last chunk
+        have hc : c = [] := by
+          rw [recvStep_eof] at heof; simpa using heof
+        have hcs0 : cs = [] := by
+          cases cs with
+          | nil => rfl
+          | cons d ds => exact absurd hc (hne c (by simp [List.dropLast_cons_cons]))
+        subst hcs0
+        simp [heof]
+      · have heof' : (recvStep count limit s c).eof = false := by simpa using heof
+        simp only [heof', Bool.false_eq_true, ↓reduceIte, List.flatten_cons]
+        rw [ih _ _ hcs, List.append_assoc]
 
 end Scrapli.Telnet
